@@ -21,19 +21,54 @@ func init() {
 		var v value = structure{parent, key, a[2]}
 		return iface{t: types.NewPointer(in.namedType("context", "valueCtx")), v: &v}
 	})
-	reg("time.AfterFunc", func(in *Exec, _ *frame, a []value) value {
-		var v value = in.zero(in.namedType("time", "Timer"))
-		return &v
-	})
-	reg("time.NewTimer", func(in *Exec, _ *frame, a []value) value {
+	// Timers fire only when every goroutine is blocked (sched.go): model time passes when nothing else can happen.
+	timerOf := func(in *Exec, a value) *modelTimer {
+		p, _ := a.(*value)
+		if p == nil {
+			return nil
+		}
+		if in.timerByPtr == nil {
+			return nil
+		}
+		return in.timerByPtr[p]
+	}
+	mkTimer := func(in *Exec, d value, fn value) value {
+		mt := in.newTimer(d, fn)
 		t := in.zero(in.namedType("time", "Timer")).(structure)
-		t[0] = &Chan{cap: 1} // C: never delivers
+		if fn == nil {
+			t[0] = mt.c
+		}
 		var v value = t
+		if in.timerByPtr == nil {
+			in.timerByPtr = map[*value]*modelTimer{}
+		}
+		in.timerByPtr[&v] = mt
 		return &v
+	}
+	reg("time.AfterFunc", func(in *Exec, _ *frame, a []value) value { return mkTimer(in, a[0], a[1]) })
+	reg("time.NewTimer", func(in *Exec, _ *frame, a []value) value { return mkTimer(in, a[0], nil) })
+	reg("(*time.Timer).Stop", func(in *Exec, _ *frame, a []value) value {
+		if mt := timerOf(in, a[0]); mt != nil {
+			was := mt.armed
+			mt.armed = false
+			return in.tb.Bool(was)
+		}
+		return in.tb.True
 	})
-	reg("(*time.Timer).Stop", func(in *Exec, _ *frame, a []value) value { return in.tb.True })
-	reg("(*time.Timer).Reset", func(in *Exec, _ *frame, a []value) value { return in.tb.True })
-	reg("time.After", func(in *Exec, _ *frame, a []value) value { return &Chan{cap: 1} })
+	reg("(*time.Timer).Reset", func(in *Exec, _ *frame, a []value) value {
+		if mt := timerOf(in, a[0]); mt != nil {
+			was := mt.armed
+			mt.armed = true
+			if dt, ok := a[1].(*Term); ok && dt.IsConst() {
+				mt.d, mt.dOK = dt.V, true
+			} else {
+				mt.dOK = false
+			}
+			return in.tb.Bool(was)
+		}
+		return in.tb.True
+	})
+	reg("time.After", func(in *Exec, _ *frame, a []value) value { return in.newTimer(a[0], nil).c })
 }
 
 func init() {
